@@ -130,6 +130,7 @@ class WsHarness(object):
                          send_suspends=cfg.get('send_suspends', False),
                          lost_mode=cfg.get('lost_mode', 'oserror'))
         self.conn.fail_send_at = frozenset(cfg.get('fail_send_at', ()))
+        self.conn.reject_close_codes = frozenset(cfg.get('reject_close_codes', ()))
 
     def note(self, name):
         self.ctx.probe(name)
